@@ -584,8 +584,7 @@ Proof.
   - apply Permutation_sym, Permutation_nil in P. discriminate.
 Qed.
 
-(* Resolve, OCI branch: locked to a best match over the tags of ALL pages; when no tag is in
-   range the code does not report the dependency as missing but locks the range text *)
+(* Resolve, OCI branch: locked to a best match over the tags of ALL pages, or reported missing *)
 Lemma resolve_oci_thm :
   forall sort : list sversion -> list sversion,
     (forall l, Permutation l (sort l)) ->
@@ -598,7 +597,7 @@ Lemma resolve_oci_thm :
           else
             (exists t, resolve_oci cvalid sat sort pages ver = DLocked t /\
                        best_tag (constraints_check cs) (all_tags pages) t) \/
-            (resolve_oci cvalid sat sort pages ver = DLocked ver /\
+            (resolve_oci cvalid sat sort pages ver = DMissing /\
              none_tag (constraints_check cs) (all_tags pages))
       end.
 Proof.
@@ -617,25 +616,25 @@ Proof.
   - assert (Hc : cvalid ver = false) by (unfold cvalid; now rewrite E). now rewrite Hc.
 Qed.
 
-(* K-C18-1: "a lock is produced only when every dependency has a version in range" fails in the
-   OCI branch: no tag of the listing is in range, and the dependency is locked all the same *)
-Lemma resolve_oci_missing_refuted :
+(* before fix ac0e5ef: no tag of the listing is in range, and the dependency was locked all the
+   same, to the text of the range; the repaired branch reports it as missing *)
+Lemma resolve_oci_unrepaired_refuted :
   exists pages ver cs,
     new_constraint ver = Some cs /\ is_valid_version ver = false /\
     none_tag (constraints_check cs) (all_tags pages) /\
-    resolve_oci cvalid sat sisort pages ver = DLocked ver.
+    resolve_oci_unrepaired cvalid sat sisort pages ver = DLocked ver /\
+    resolve_oci cvalid sat sisort pages ver = DMissing.
 Proof.
   exists [["0.9.0"; "1.0.0"]; ["2.1.0"; "latest"]], ">=3.0.0".
   destruct (new_constraint ">=3.0.0") as [cs|] eqn:E; [|vm_compute in E; discriminate].
   exists cs. split; auto. split; [reflexivity|].
   pose proof (resolve_oci_thm sisort sisort_perm sisort_sorted [["0.9.0"; "1.0.0"]; ["2.1.0"; "latest"]] ">=3.0.0") as H.
   rewrite E in H. change (is_valid_version ">=3.0.0") with false in H. cbv iota in H.
-  assert (R : resolve_oci cvalid sat sisort [["0.9.0"; "1.0.0"]; ["2.1.0"; "latest"]] ">=3.0.0" = DLocked ">=3.0.0")
+  assert (R : resolve_oci cvalid sat sisort [["0.9.0"; "1.0.0"]; ["2.1.0"; "latest"]] ">=3.0.0" = DMissing)
     by (vm_compute; reflexivity).
-  split; auto.
-  destruct H as [(t & Ht & B)|(_ & N)]; auto.
-  exfalso. rewrite R in Ht. injection Ht as <-.
-  destruct B as (_ & (v & Pv & _) & _). vm_compute in Pv. discriminate.
+  split; [|split; [vm_compute; reflexivity|exact R]].
+  destruct H as [(t & Ht & _)|(_ & N)]; auto.
+  rewrite R in Ht. discriminate.
 Qed.
 
 (* ---------- independence of the paging ---------- *)
@@ -717,7 +716,7 @@ Lemma example_oci :
   resolve_oci cvalid sat sisort ex_pages "^1.0.0" = DLocked "1.10.0" /\
   resolve_oci cvalid sat sisort ex_pages "2.x" = DLocked "2.1.0+b1" /\
   resolve_oci cvalid sat sisort ex_pages "1.2.3" = DLocked "1.2.3" /\
-  resolve_oci cvalid sat sisort ex_pages ">=3" = DLocked ">=3" /\
+  resolve_oci cvalid sat sisort ex_pages ">=3" = DMissing /\
   resolve_oci cvalid sat sisort ex_pages "latest" = DFail.
 Proof. vm_compute. repeat split; reflexivity. Qed.
 
